@@ -156,7 +156,8 @@ INNER = ST + "into_step_input.<locals>.builder.<locals>.inner"
 RES = "schemathesis.core.result:"
 SM = "schemathesis.generation.stateful.state_machine:"
 UNRES_ = Global("schemathesis.core.transforms:UNRESOLVABLE")
-Extracted = lambda: Obj(SM + "ExtractedParam", definition=Opq("Any"), value=OneOf(Obj(RES + "Ok", _value=OneOf(Opq("LinkValue"), NoneT, UNRES_)), Obj(RES + "Err", _error=Opq("Error"))))
+# (falsy values - 0, "", False - are values like any other: a link may well pass `0`)
+Extracted = lambda: Obj(SM + "ExtractedParam", definition=Opq("Any"), value=OneOf(Obj(RES + "Ok", _value=OneOf(Opq("LinkValue"), NoneT, UNRES_, Const(0), Const(""), Const(False))), Obj(RES + "Err", _error=Opq("Error"))))
 BodyValue = OneOf(Opq("LinkValue"), UNRES_, DictOf(optional={"b": Opq("LinkValue")}))
 ExtractedBody = lambda: Obj(SM + "ExtractedParam", definition=Opq("Any"), value=OneOf(Obj(RES + "Ok", _value=BodyValue), Obj(RES + "Err", _error=Opq("Error"))))
 TransitionD = Obj(SM + "Transition", id=Str, parent_id=Str, parameters=DictOf(optional={"query": DictOf(optional={"q": Extracted()}), "path_parameters": DictOf(optional={"id": Extracted()})}),
